@@ -16,29 +16,39 @@ PROP = 'C06'
 NODE = 'dtn://node/'
 T = 700000000000
 
+from .c02 import admin_payload
+
+# mark: data of an extension block carried by the first fragment only (with CRC-16 / CRC-32 / none)
 BUNDLES = {
-    'X': dict(src='dtn://src/', ts=(T, 1), payload=b'ABCDEF', mark=b'\x01'),
-    'Y': dict(src='dtn://other/', ts=(T, 1), payload=b'uvwxyz', mark=b'\x02'),
-    'Z': dict(src='dtn://src/', ts=(T, 2), payload=b'123456', mark=b'\x03'),
+    'X': dict(src='dtn://src/', ts=(T, 1), payload=b'ABCDEF', mark=b'\x01', mark_crc=1),
+    'Y': dict(src='dtn://other/', ts=(T, 1), payload=b'uvwxyz', mark=b'\x02', mark_crc=2),
+    'Z': dict(src='dtn://src/', ts=(T, 2), payload=b'123456', mark=b'\x03', mark_crc=0),
+    # an administrative record (status report) addressed to the node itself, fragmented on its way
+    'A': dict(src='dtn://src/', ts=(T, 3), payload=admin_payload(1), mark=b'\x04', mark_crc=1, dest=NODE, flags=B.FLAG_ADMIN),
 }
 
 
 def frag(name, lo, hi):
     b = BUNDLES[name]
-    pri = dict(flags=B.FLAG_IS_FRAGMENT, crc_type=1, dest='dtn://node/app', src=b['src'], report_to='dtn:none',
-               ts=b['ts'], lifetime=3600000, frag_offset=lo, total_adu=len(b['payload']))
+    pri = dict(flags=B.FLAG_IS_FRAGMENT | b.get('flags', 0), crc_type=1, dest=b.get('dest', 'dtn://node/app'), src=b['src'],
+               report_to='dtn:none', ts=b['ts'], lifetime=3600000, frag_offset=lo, total_adu=len(b['payload']))
     blocks = []
     if lo == 0:
-        blocks.append(dict(type=200, num=2, flags=0, crc_type=0, data=b['mark']))
+        blocks.append(dict(type=200, num=2, flags=0, crc_type=b['mark_crc'], data=b['mark']))
     blocks.append(dict(type=1, num=1, flags=0, crc_type=2, data=b['payload'][lo:hi]))
     return dict(primary=pri, blocks=blocks)
 
 
 def whole(name):
     b = BUNDLES[name]
-    pri = dict(flags=0, crc_type=1, dest='dtn://node/app', src=b['src'], report_to='dtn:none', ts=b['ts'], lifetime=3600000)
-    return dict(primary=pri, blocks=[dict(type=200, num=2, flags=0, crc_type=0, data=b['mark']),
+    pri = dict(flags=b.get('flags', 0), crc_type=1, dest=b.get('dest', 'dtn://node/app'), src=b['src'], report_to='dtn:none',
+               ts=b['ts'], lifetime=3600000)
+    return dict(primary=pri, blocks=[dict(type=200, num=2, flags=0, crc_type=b['mark_crc'], data=b['mark']),
                                     dict(type=1, num=1, flags=0, crc_type=2, data=b['payload'])])
+
+
+AN = len(BUNDLES['A']['payload'])
+AH = AN // 2
 
 
 def alphabet():
@@ -48,6 +58,7 @@ def alphabet():
         ('X', 'X', None, whole('X')),
         ('Y[0,3)', 'Y', (0, 3), frag('Y', 0, 3)), ('Y[3,6)', 'Y', (3, 6), frag('Y', 3, 6)),
         ('Z[0,3)', 'Z', (0, 3), frag('Z', 0, 3)), ('Z[3,6)', 'Z', (3, 6), frag('Z', 3, 6)),
+        ('A[0,h)', 'A', (0, AH), frag('A', 0, AH)), ('A[h,n)', 'A', (AH, AN), frag('A', AH, AN)), ('A', 'A', None, whole('A')),
     ]
 
 
@@ -164,15 +175,23 @@ def scenarios(tier):
         out.append(dict(name='X-deep/first-%s' % ALPHA[first][0], kind='graph',
                         params=dict(max_depth=depth + 2, letters=xs, prefix=[first]), dev_bound=0, use_snapshot=False,
                         liveness=False, max_states=400000, weight=5))
-    # everything interleaved
-    for first in range(len(ALPHA)):
+    # everything interleaved (without the administrative record)
+    mixed = list(range(11))
+    for first in mixed:
         out.append(dict(name='mixed/first-%s' % ALPHA[first][0], kind='graph',
-                        params=dict(max_depth=depth, prefix=[first]), dev_bound=0, use_snapshot=False,
+                        params=dict(max_depth=depth, letters=mixed, prefix=[first]), dev_bound=0, use_snapshot=False,
+                        liveness=False, max_states=400000, weight=3))
+    # a fragmented administrative record, alone and interleaved with fragments of X
+    adm = [11, 12, 13, 3, 5]
+    for first in (11, 12, 13):
+        out.append(dict(name='admin-record/first-%s' % ALPHA[first][0], kind='graph',
+                        params=dict(max_depth=depth + 1, letters=adm, prefix=[first]), dev_bound=0, use_snapshot=False,
                         liveness=False, max_states=400000, weight=3))
     return out
 
 
 ASSUMPTIONS = [
+    'a status report addressed to the node, in two fragments and whole, alone and interleaved with fragments of X; the extension block of the first fragment carries CRC-16 (X, A), CRC-32 (Y) or no CRC (Z)',
     'six-octet payloads; fragmentations {[0,2),[2,4),[4,6)}, {[0,3),[2,5),[4,6)} and {[0,3),[3,6)} of X may be mixed; two look-alike bundles',
     'arrival histories of at most 4 (quick) / 5 (thorough) elements over the whole alphabet, 6 / 7 over X alone; idle callbacks interleaved in every order',
     'overlapping fragments of one bundle carry consistent octets',
